@@ -1,11 +1,13 @@
 """C01: exact in-order delivery to matching subscriptions. See router_common.py and DESIGN.md section 6."""
 from checks import router_common as rc
+from checks import alias_common
 
 INV = ["NoPanic", "SlabsAligned", "ReadyqSound", "NoLostRequest", "DeliveredExactly", "NoSpurious", "QuiescentComplete"]
 
 
 def run(ctx):
     q = ctx.quick
+    alias_common.alias_stage(ctx, "C01")
     mc = [("c01_a", dict(MaxPub=2 if q else 3, MaxSubOps=2, SubQoS="{1}", PubQoS="{0, 1}"), None)]
     if not q:
         mc.append(("c01_b", dict(MaxPub=3, MaxSubOps=2, SubQoS="{0, 2}", PubQoS="{2}", Subscribers='{"n1", "n2"}'), None))
